@@ -49,6 +49,8 @@ func keysOf(m map[string]approvalCall) string {
 func runC11(c *Ctx) {
 	root := c.Root()
 	r := c.R
+	// the three sides split a key at the first newline; the uploader decides "is a stack" with IsStackCounter
+	c15IsStackCounter(c, root, "C11.stack-level")
 	methods := approvalMethods(root)
 	var required []string // method names every site must consult
 	for _, m := range methods {
